@@ -372,6 +372,8 @@ func genSys(e *c14env, seed uint64, internal bool) *sysCase {
 		k.khOpt, k.khNamed = 1, k.kh
 		if r2.Chance(1, 5) {
 			k.khOpt = 5 // existing path plus a same-named decoy under $HOME
+		} else if r2.Chance(1, 6) {
+			k.khOpt, k.khNamed = 6, "/dev/null" // coincides with what the transport itself passes when checking is off
 		} else if r2.Chance(1, 8) {
 			k.khOpt, k.khNamed = 2, filepath.Join(e.dir, "no-such-known-hosts")
 		}
@@ -429,7 +431,7 @@ func (k *sysCase) options(e *c14env) []util.Option {
 		opts = append(opts, options.WithAuthNoStrictKey())
 	}
 	switch k.khOpt {
-	case 1, 2, 5:
+	case 1, 2, 5, 6:
 		opts = append(opts, options.WithSSHKnownHostsFile(k.khNamed))
 	case 3, 4:
 		opts = append(opts, options.WithSSHKnownHostsFileSystem())
@@ -464,6 +466,8 @@ func (k *sysCase) options(e *c14env) []util.Option {
 
 func resolveRq(opt int, named, home, etc string, etcHas bool) string {
 	switch opt {
+	case 6:
+		return fmt.Sprintf("c14 resolvepath %s 1 0 %s", hexs(named), hexs(filepath.Dir(filepath.Dir(home))))
 	case 5:
 		// util.ResolveFilePath on an existing path that also exists re-rooted under $HOME
 		return fmt.Sprintf("c14 resolvepath %s 1 1 %s", hexs(named), hexs(filepath.Dir(filepath.Dir(home))))
@@ -1009,7 +1013,7 @@ type stdCase struct {
 	host    string   // "127.0.0.1" | "localhost" | "::1"
 	khMode  int      // how the known-hosts file is named: 0 WithSSHKnownHostsFile(existing path), 1 …(path that does not exist), 2 WithSSHKnownHostsFileSystem() with the content in ~/.ssh/known_hosts
 	// khMode 3: the path exists as given and/or re-rooted under $HOME, with different content (decoy)
-	khForm   int    // 0 absolute, 1 relative to the working directory, 2 "~/…"
+	khForm   int    // 0 absolute, 1 relative to the working directory, 2 "~/…", 3 a sentinel/default path (khWhere selects which)
 	khWhere  int    // 0 both places, 1 only as given, 2 only under $HOME
 	khSwap   bool   // the case's known-hosts kind goes to the $HOME copy, its opposite to the as-given one
 	ciphers []string // WithStandardTransportExtraCiphers
@@ -1094,6 +1098,10 @@ func genStd(seed uint64, cell int) *stdCase {
 	k.host = r2.Pick([]string{"127.0.0.1", "127.0.0.1", "localhost", "::1", "localhost", c14SecondName()})
 	k.khMode = pickInt(r2, 0, 0, 0, 0, 2, 2, 1, 3, 3, 3)
 	k.khForm, k.khWhere, k.khSwap = r2.Intn(3), pickInt(r2, 0, 0, 0, 1, 2), r2.Bool()
+	if r2.Chance(1, 4) {
+		k.khForm = 3 // a path that coincides with a sentinel / default: /dev/null, ~/.ssh/known_hosts, /etc/ssh/ssh_known_hosts, ""
+		k.khWhere = pickInt(r2, 0, 0, 0, 1, 2, 3)
+	}
 	if r2.Chance(1, 4) {
 		k.ciphers = pickList(r2, [][]string{{"aes128-ctr"}, {"aes256-gcm@openssh.com", "aes128-ctr"}, {"chacha20-poly1305@openssh.com"}})
 	}
@@ -1672,6 +1680,26 @@ func oppositeKind(k khKind, alt bool) khKind {
 // same name re-rooted under $HOME, with opposite content. It returns the stdOpen descriptor
 // ("name\x00asGiven\x00underHome"), what each candidate path holds, and a cleanup.
 func (e *c14env) decoyKH(k *stdCase, srv *sim.SSHServer) (string, map[string]khKind, func()) {
+	if k.khForm == 3 {
+		// paths that coincide with values the transports use internally or by default
+		homeKH := filepath.Join(e.home, ".ssh", "known_hosts")
+		switch k.khWhere {
+		case 1:
+			// the user's default file, named explicitly: holds this case's content
+			os.WriteFile(homeKH, e.khBytes(k.kh, k.host, srv.Port, srv.HostKey.PublicKey()), 0o600)
+			return "~/.ssh/known_hosts\x000\x001", map[string]khKind{e.home + "/.ssh/known_hosts": k.kh}, func() { os.Remove(homeKH) }
+		case 2:
+			// the system-wide default, named explicitly (only where the machine has none: nothing resolves)
+			if !e.etcKH {
+				return "/etc/ssh/ssh_known_hosts\x000\x000", map[string]khKind{}, func() {}
+			}
+		case 3:
+			// the empty string: util.ResolveFilePath turns it into "$HOME/", a directory that cannot be loaded
+			return "\x000\x001", map[string]khKind{e.home + "/": khMalformed}, func() {}
+		}
+		// /dev/null: an existing, empty known-hosts file — no host is known
+		return "/dev/null\x001\x000", map[string]khKind{"/dev/null": khEmpty}, func() {}
+	}
 	e.seq++
 	var named string
 	switch k.khForm {
@@ -1749,7 +1777,11 @@ func c14Std(c *ctx, e *c14env, cells []int, seeds []uint64) {
 		res.Count("std host=" + r.k.host)
 		res.Count(fmt.Sprintf("std known-hosts-option=%s", []string{"path", "missing-path", "system", "path-with-decoy"}[r.k.khMode]))
 		if r.k.khMode == 3 {
-			res.Count(fmt.Sprintf("std decoy form=%s where=%s", []string{"absolute", "relative", "tilde"}[r.k.khForm], []string{"both", "only-as-given", "only-under-home"}[r.k.khWhere]))
+			if r.k.khForm == 3 {
+				res.Count("std known-hosts path = " + []string{"/dev/null", "~/.ssh/known_hosts", "/etc/ssh/ssh_known_hosts", "empty string"}[r.k.khWhere])
+			} else {
+				res.Count(fmt.Sprintf("std decoy form=%s where=%s", []string{"absolute", "relative", "tilde"}[r.k.khForm], []string{"both", "only-as-given", "only-under-home"}[r.k.khWhere]))
+			}
 		}
 		if r.k.drvOpen && !r.k.netconf {
 			res.Count("std via Driver.Open")
@@ -1950,6 +1982,10 @@ func c14Real(c *ctx, e *c14env, cells []int, seeds []uint64) {
 		viaSystem := k.khMode == 2 && k.kh != khAbsent
 		if viaSystem {
 			os.WriteFile(homeKH, e.khBytes(k.kh, k.host, srv.Port, srv.HostKey.PublicKey()), 0o600)
+		} else if k.khMode == 3 && (k.khForm == 3 || r.Chance(1, 2)) {
+			// the known-hosts file is /dev/null: an empty file, no host is known
+			k.kh, khPath = khEmpty, "/dev/null"
+			res.Count("real known-hosts path = /dev/null")
 		} else {
 			khPath = e.writeKH(k.kh, k.host, srv.Port, srv.HostKey.PublicKey())
 			if k.khMode == 3 && khPath != "" {
